@@ -137,6 +137,14 @@ def make_overlay():
     alg = take("runtime/alg.go")
     replace_once(alg, "\t\thashkey[i] = uintptr(bootstrapRand())\n", "\t\thashkey[i] = uintptr(simFixedKey(i))\n")
     replace_once(alg, "\t\tkey[i] = bootstrapRand()\n", "\t\tkey[i] = simFixedKey(i)\n")
+    syn = take("runtime/synctest.go")
+    # package-level sync.WaitGroups (watchers' wait groups in Zeno) can never be associated with a bubble in
+    # stock Go, which makes Wait on them non-durable and would stall the simulator whenever the goroutine
+    # they wait for is parked at a hook. With SimBubbleGlobals(true) they count as members of the current bubble.
+    replace_once(syn, "\t\t// We can't attach a special to it, so always consider it unbubbled.\n\t\treturn bubbleAssocUnbubbled\n",
+                 "\t\t// We can't attach a special to it, so always consider it unbubbled.\n\t\tif simGlobals.Load() != 0 {\n\t\t\treturn bubbleAssocCurrentBubble\n\t\t}\n\t\treturn bubbleAssocUnbubbled\n")
+    replace_once(syn, "func synctest_disassociate(p unsafe.Pointer) {\n",
+                 "func synctest_disassociate(p unsafe.Pointer) {\n\tif spanOfHeap(uintptr(p)) == nil {\n\t\treturn\n\t}\n")
     newf = os.path.join(od, "runtime__zsim.go")
     open(newf, "w").write('''package runtime
 
@@ -150,6 +158,17 @@ var simBias atomic.Uint64
 // SimSetBias makes every select tie-break and map iteration start a pure
 // function of b (until the next call).
 func SimSetBias(b uint64) { simBias.Store(b) }
+
+var simGlobals atomic.Uint32
+
+// SimBubbleGlobals makes package-level variables count as members of the current synctest bubble.
+func SimBubbleGlobals(on bool) {
+	if on {
+		simGlobals.Store(1)
+	} else {
+		simGlobals.Store(0)
+	}
+}
 
 // SimGoid returns the id of the calling goroutine.
 func SimGoid() uint64 { return getg().goid }
